@@ -221,11 +221,14 @@ def _post_batches(mon, call):
     circuits = _arg(call, 0, "circuits")
     ns = _arg(call, 1, "n_samples_per_circuit")
     mb = _arg(call, 2, "max_batch_size")
-    if call.exc is not None or not _seq(circuits) or not _seq(ns) or len(circuits) != len(ns) or not _is_int(mb) \
+    if not _seq(circuits) or not _seq(ns) or len(circuits) != len(ns) or not _is_int(mb) \
             or mb < 1 or not all(_is_int(n) and n >= 1 for n in ns):
         mon.out_of_domain(name)
         return
     ctx = f"split_into_batches({len(circuits)} circuits, {list(ns)!r}, {mb})"
+    if call.exc is not None:
+        mon.violation("batches-raises", f"{ctx} raised {call.exc!r}")
+        return
     items, exc = [], None
     try:
         for b in call.result:
